@@ -25,7 +25,7 @@ R_RULES = [
 ]
 RC = [
     ('requires', '*ec_p == 0 && !vx_returned && vx_pushes == 0 && vx_pops == 0 && vx_p0 == vx_p && vx_column <= SIZE_MAX / 2 && vx_p <= SIZE_MAX / 2 && vx_stack_size >= 1 && vx_stack_size <= SIZE_MAX / 2 && vx_stack_size0 == vx_stack_size'),
-    ('assigns', '*ec_p, vx_returned, vx_p, vx_column, vx_pushes, vx_pops, vx_pushed_state, vx_stack_size'),
+    ('assigns', '*ec_p, vx_returned, vx_p, vx_column, vx_pushes, vx_pops, vx_pushed_state, vx_stack_size, vx_back_set'),
     ('ensures', '[C05] the state stack is never emptied while the compilation goes on: the loop reads state_stack.back() next (an unmatched closing parenthesis is an error, not a pop of the last state)', 'vx_returned || vx_stack_size >= 1'),
     ('ensures', '[C05] progress: the step consumes the character, or changes the state stack, or ends the compilation with an error', 'vx_p > vx_p0 || vx_pushes + vx_pops > 0 || (vx_returned && *ec_p != 0)'),
     ('ensures', '[C13] a closing parenthesis after an operand closes the innermost open construct when there is one, and is the error unbalanced_parentheses otherwise',
@@ -37,7 +37,15 @@ SPECS = [
              slice_from=r'switch \(\*p_\)\s*\{\s*case \' \':case \'\\t\':case \'\\r\':case \'\\n\':\s*advance_past_space_character\(\);\s*break;\s*case \',\':\s*push_token\(lparen_arg', slice_to=r'break;\s*case expr_state::argument:'),
     FuncSpec('rhs_expression_step', J, r'jmespath_expression compile\(const char_type\* path, std::size_t length,\s*const jsoncons::jmespath::custom_functions<Json>& funcs,\s*std::error_code& ec\)', csig='void rhs_expression_step(int* ec_p)', contract=RC, rules=R_RULES, aliases={'ec': '(*ec_p)'},
              slice_from=r'(?<=case expr_state::rhs_expression:)\s*switch\(\*p_\)', slice_to=r'break;\s*case expr_state::comparator_expression:'),
+    FuncSpec('multi_select_hash_step', J, r'jmespath_expression compile\(const char_type\* path, std::size_t length,\s*const jsoncons::jmespath::custom_functions<Json>& funcs,\s*std::error_code& ec\)', csig='void multi_select_hash_step(int* ec_p)', aliases={'ec': '(*ec_p)'},
+             contract=[RC[0], RC[1], RC[3],
+                       ('ensures', '[C13] after the opening brace of a multi-select hash a key must follow: a character that cannot start a key is the error expected_key, anything else starts a key-value pair that must be closed by a brace',
+                        "(vx_c == '*' || vx_c == ']' || vx_c == '?' || vx_c == ':' || vx_c == '-' || (vx_c >= '0' && vx_c <= '9')) ? (vx_returned && *ec_p == jmespath_errc_expected_key) : (!vx_returned && vx_pushes == 1 && vx_pushed_state == expr_state_key_val_expr && vx_back_set == expr_state_expect_rbrace)")],
+             rules=[(r'state_stack\.back\(\) = expr_state::(\w+);', r'vx_back_set = expr_state_\1;', 1), (r'state_stack\.push_back\(expr_state::(\w+)\);', r'vx_stack_push(expr_state_\1);', 1), (r'return jmespath_expression\{\};', '{ vx_returned = true; return; }', 0, 2),
+                    (r'\*p_', 'vx_c', 1), (r'jmespath_errc::(\w+)', r'jmespath_errc_\1', 0, 2)],
+             slice_from=r'(?<=case expr_state::multi_select_hash:)\s*switch\(\*p_\)', slice_to=r'break;\s*case expr_state::index_or_slice_expression:'),
 ]
-HARNESSES = [Harness('rhs_expression_step', 'h_rhs_expression_step', enforce='rhs_expression_step', method='LF', props=['C05', 'C13'], note='program slice: the switch of state rhs_expression for an arbitrary character and an arbitrary depth of the state stack'),
+HARNESSES = [Harness('multi_select_hash_step', 'h_multi_select_hash_step', enforce='multi_select_hash_step', method='LF', props=['C05', 'C13'], note='program slice: the switch of state multi_select_hash for an arbitrary character'),
+             Harness('rhs_expression_step', 'h_rhs_expression_step', enforce='rhs_expression_step', method='LF', props=['C05', 'C13'], note='program slice: the switch of state rhs_expression for an arbitrary character and an arbitrary depth of the state stack'),
              Harness('function_expression_step', 'h_function_expression_step', enforce='function_expression_step', method='LF', props=['C05', 'C13'],
                      note='program slice: the switch of state function_expression for an arbitrary character; the other states of compile() are not under contract')]
